@@ -213,6 +213,8 @@ class Scenario:
                 args = [tid, "ok", TooLarge()]
             elif kind == "tagged":
                 args = [tid, "tagged", tasks.Tagged(tid)]
+            elif kind == "hugearg":
+                args = [tid, "ok", "y" * 70000]          # larger than the pipe: the feeder blocks until a worker reads it
             elif kind == "probe":
                 args = [tid, "ok", None]
             try:
